@@ -21,7 +21,7 @@ func init() {
 			"destination fixed to @x so that debits are the draws; amounts enter through the monetary variable $amt (literal amounts are covered by C03/C15)",
 			"reference semantics in harness/ref/sem.go (running balance within a statement, caps and availability clamped at zero)",
 		},
-		QuickBudget: 70 * time.Second,
+		QuickBudget: 240 * time.Second,
 		ThoroBudget: 12 * time.Minute,
 		Run:         runC04,
 	})
